@@ -17,8 +17,8 @@ func init() {
 			{ID: "R15.1", Configs: "all", Run: ruleR15_1},
 			{ID: "R15.2", Configs: "all", Run: ruleR15_2},
 		},
-		Explanation: "Decides, for every call that acquires bytes from the source in flate, gzip and zlib (Peek, Discard, ReadByte, io.ReadFull, the inner inflater's Read, and repository functions reaching them): on every path on which the call's error is neither nil, io.EOF nor bufio.ErrBufferFull, the first thing that happens is a return of that same value (through pass-through helpers such as noEOF) or its storage in the sticky field, before any other source call, and the sticky field is not overwritten with a different value afterwards (R15.1); " +
-			"and every Read method tests the sticky field before any source call and records the inflater's result in it (R15.2). Decided by SSA value tracking with branch refinement on comparisons against nil/io.EOF/bufio.ErrBufferFull; nothing is executed.",
+		Explanation: "Decides, for every call that acquires bytes from the source in flate, gzip and zlib (Peek, Discard, ReadByte, io.ReadFull, the inner inflater's Read, and repository functions reaching them): on every path on which the call's error is neither nil nor io.EOF (bufio.ErrBufferFull is not exempt: no Peek in these packages can exceed bufio's minimum buffer, so that value can only be the source's own), the first thing that happens is a return of that same value (through pass-through helpers such as noEOF) or its storage in the sticky field, before any other source call, and the sticky field is not overwritten with a different value afterwards (R15.1); " +
+			"and every Read method tests the sticky field before any source call and records the inflater's result in it (R15.2). Decided by SSA value tracking with branch refinement on comparisons against nil/io.EOF; nothing is executed.",
 		NotDecided: []string{
 			"every byte returned before the error is a correct prefix of the decompressed data (decode correctness, C02)",
 			"behaviour of bufio.Reader itself when the underlying reader fails (trusted: returns the reader's error)",
@@ -106,7 +106,7 @@ func ruleR15_1(p *Program, r *Report) {
 			if _, has := hasErrorResult(c); !has {
 				continue
 			}
-			desc := "a source error from " + what + " (not nil/io.EOF/ErrBufferFull) is returned unchanged or recorded before anything else happens"
+			desc := "a source error from " + what + " (not nil/io.EOF) is returned unchanged or recorded before anything else happens"
 			if len(errorResults(c)) == 0 {
 				if peekBuffered(fn, c) {
 					r.OK("R15.1", key, p.InstrPos(c), desc+" [Peek(Buffered()) cannot fail: it asks for what is already buffered]")
